@@ -302,4 +302,25 @@ Proof.
   intros Ho Hp H. eapply follows_held. apply follows_after_edits. eapply inverse_follows; eauto.
 Qed.
 
+
+(* inverse(update_buffers=True): the buffered displacement of the inverse is computed from the buffered
+   velocity field with the NEGATED exponential (so the inverse can be used without update()) *)
+Theorem inverse_update_buffers_field s o n s1 ob vb :
+  get_obj s o = Some ob -> has_exp (o_kind P G C ob) = true -> o_v P G C ob = Some vb ->
+  inverse1 s o false true = Ok n s1 ->
+  exists obn, get_obj s1 n = Some obn /\
+    o_u P G C obn = Some (mkU P G (Snap P (u_content P G C p0 s vb)) (u_grid P G vb) (negb (o_inv P G C ob))).
+Proof.
+  destruct (cfg_all_fields _ Hcf) as (_ & _ & _ & _ & _ & _ & _ & _ & _ & _ & Hfl & _ & _ & _ & _ & _ & _ & Hef & _).
+  intros Ho He Hv H. unfold TransformState.inverse1, with_obj in H. fold (get_obj s o) in H. rewrite Ho in H.
+  assert (Hi : invertible (o_kind P G C ob) = true) by (destruct (o_kind P G C ob); cbn in *; congruence).
+  rewrite Hi in H. cbn [negb push_obj andb] in H.
+  unfold with_obj, TransformState.get_obj in H. cbn in H. rewrite nth_error_app_new in H.
+  rewrite Hfl, Hef, He in H. cbn [andb] in H.
+  rewrite Hv in H. injection H as <- <-. eexists. split.
+  - unfold TransformState.get_obj, TransformState.set_obj; cbn.
+    apply nth_error_replace_same with (y := ob). apply nth_error_app_new.
+  - destruct ob; reflexivity.
+Qed.
+
 End Shared.
